@@ -34,6 +34,21 @@ def unit():
 def origin():
     return Point()
 ''',
+    "fastshapes.py": '''class Circle:
+    def __init__(self, r=1):
+        self.r = r
+
+    def area(self):
+        return 3 * self.r * self.r
+
+
+class Square:
+    def __init__(self, s=1):
+        self.s = s
+
+    def area(self):
+        return self.s * self.s
+''',
     "colors.py": '''class Color:
     def __init__(self, name="red"):
         self.name = name
@@ -56,6 +71,11 @@ IMPORT_STYLES = [
     {"name": "function-local-import", "lines": ["import colors"], "local": True,
      "Circle": "shapes.Circle", "Square": "shapes.Square", "Point": "geo.util.Point", "Color": "colors.Color"},
     {"name": "function-local-from-import", "lines": ["import colors"], "local": "from",
+     "Circle": "Circle", "Square": "Square", "Point": "Point", "Color": "colors.Color"},
+    {"name": "relative-import-in-package", "lines": ["from .shapes import Circle, Square", "from .points import Point", "import colors"],
+     "Circle": "Circle", "Square": "Square", "Point": "Point", "Color": "colors.Color"},
+    {"name": "try-except-alternative-import", "lines": ["try:", "    from fastshapes import Circle, Square", "except ImportError:", "    from shapes import Circle, Square",
+                                                       "from geo.util import Point", "import colors"],
      "Circle": "Circle", "Square": "Square", "Point": "Point", "Color": "colors.Color"},
     {"name": "mixed", "lines": ["import shapes", "from shapes import Square", "from geo.util import Point", "from colors import *"],
      "Circle": "shapes.Circle", "Square": "Square", "Point": "Point", "Color": "Color"},
@@ -181,6 +201,18 @@ def build(rng, name, opts=None):
             "",
         ]
         feats.append("dict-arg")
+    if chance(0.4, "posonly-star"):
+        L += [
+            "def clamp(v, /, *, lo=0):",
+            "    return max(v, lo)",
+            "",
+            "",
+            "def join(a, /, *rest, sep):",
+            "    return sep.join([a] + list(rest))",
+            "",
+            "",
+        ]
+        feats.append("posonly-star")
     if chance(0.5, "alias-annotations"):
         if not any(ln == "import typing" for ln in L):
             idx = L.index("import functools  # needed by the decorator below")
@@ -244,6 +276,8 @@ def build(rng, name, opts=None):
         L += ["    out.append([s.r for s in gen_shapes(3)])"]
     if "def settings(" in src:
         L += ["    out.append(settings({'a': 1, 'b': 2}))", "    out.append(settings({'a': 1}))"]
+    if "def clamp(" in src:
+        L += ["    out.append(clamp(3, lo=5))", "    out.append(join('a', 'b', sep='-'))"]
     if "def scale_all(" in src:
         L += ["    out.append(scale_all([1, 2], 3))", "    out.append(scale_all([4]))"]
     L += ["    cv = Canvas.of(c).add(make_circle(3))", "    out.append(cv.count)", "    out.append(Canvas.blank().count)", "    out.append(Canvas().width)"]
